@@ -1,4 +1,4 @@
-From Coq Require Import List Arith.
+From Coq Require Import List Arith NArith.
 From Coq Require Import ExtrOcamlBasic ExtrOcamlString.
-From OsmtV.Core Require Import MinimizeNaive.
-Extraction "core_model.ml" performNaive_log perform minimize.
+From OsmtV.Core Require Import MinimizeNaive CoreExtract.
+Extraction "core_model.ml" performNaive_log perform minimize computeClauses mapClausesToTerms partitionNamedTerms buildCore.
